@@ -1860,3 +1860,57 @@ func H_C01_projectNested(n0, n1 int) {
 	want := vrCat([]byte(`{"g":`), gridV, []byte(`,"l":`), lineV, []byte(`,"r":`), rowsV, []byte(`,"s":`), sheetsV, []byte(`,"whole":`), grid, []byte(`}`))
 	verifAssert(verifBytesEq(vrEncode(args), want), "C01: a member projected through arrays of arrays, typed maps of arrays and arrays of typed maps arrives as the member of every element, in the same shape")
 }
+
+// ---- C05: forks of a run-time map call rebuilt by a re-attached mrp ----
+
+// the fork directories whose split/_stage_defs exists on disk (a re-attached
+// mrp rebuilds the chunk list of a fork from it)
+var vrStageDefsOnDisk map[string]bool
+
+//verif:stub (*github.com/martian-lang/martian/martian/core.Metadata).ReadInto
+func vrReadInto(self *Metadata, name MetadataFileName, target interface{}) error {
+	if sd, ok := target.(**StageDefs); ok && name == StageDefsFile && vrStageDefsOnDisk[self.path] {
+		*sd = &StageDefs{ChunkDefs: []*ChunkDef{{}}}
+		return nil
+	}
+	return &os.PathError{Op: "open", Path: self.MetadataFilePath(name), Err: os.ErrNotExist}
+}
+
+// H_C05_restoredForks(nkeys): mrp was interrupted while the forks of W (mapped
+// over the typed map GEN produced at run time, nkeys keys) were past their
+// split phase: every fork directory fork_<key> has split/_stage_defs.  A
+// re-attached mrp starts with the single placeholder fork and turns it into
+// the real forks in RestoreForks (expandForks).
+//
+//	C05: afterwards every fork — the first one, which is the renamed
+//	     placeholder, included — has the chunk list its _stage_defs records, in
+//	     its own directory, so that the completion its chunk recorded is found
+//	     and the job is not executed again.
+func H_C05_restoredForks(nkeys int) {
+	w := vrMixGraph()
+	vrOuts = map[*Metadata]LazyArgumentMap{}
+	vrStageDefsOnDisk = map[string]bool{}
+	m := []byte{'{'}
+	for i := 0; i < nkeys; i++ {
+		if i > 0 {
+			m = append(m, ',')
+		}
+		m = vrCat(m, []byte(`"`+vrKeys[i]+`":`), vrDigit("m value"))
+		vrStageDefsOnDisk["/ps/P/W/fork_"+vrKeys[i]+"/split"] = true
+	}
+	m = append(m, '}')
+	vrOuts[w.gen.forks[0].metadata] = LazyArgumentMap{
+		"m": json.RawMessage(m), "st": json.RawMessage(`{"a":1,"b":2}`), "flag": json.RawMessage("false"), "v": json.RawMessage("3"),
+	}
+	verifAssert(len(w.w.forks) == 1 && len(w.w.forks[0].chunks) == 0, "a freshly instantiated map call over a run-time map has one placeholder fork without chunks")
+	w.ps.RestoreForks(context.Background())
+	verifCover("forks restored")
+	verifAssert(len(w.w.forks) == nkeys, "C03/C05: a re-attached mrp restores one fork per key")
+	for i, f := range w.w.forks {
+		verifAssert(f.path == "/ps/P/W/fork_"+vrKeys[i], "C11/C05: a restored fork lives in the directory named after its key")
+		verifAssert(len(f.chunks) == 1, "C05: every restored fork has the chunk list its _stage_defs records (the completion its job recorded is found, the job is not executed again)")
+		if len(f.chunks) == 1 {
+			verifAssert(strings.HasPrefix(f.chunks[0].metadata.path, f.path+"/"), "C05: a restored fork's chunk lives in that fork's directory")
+		}
+	}
+}
